@@ -288,6 +288,8 @@ def run_adaptive(tier, seed, stop_first=True):
             for parts in compositions(n):
                 cases += 1
                 nontrivial += 1 if len(parts) >= 2 else 0
+                if n <= 3 and len(parts) >= 1:
+                    parts = parts[:1] + [0] + parts[1:]            # an empty later batch changes nothing
                 what = scale_case(elfi, layout, X, parts, ad)
                 if what:
                     failures.append(dict(signature='c12:adaptive-scale', what=what, input=dict(family='scale', layout=layout, X=X.tolist(), parts=parts)))
